@@ -580,8 +580,14 @@ def check_alias_after(history, syntax, names, share_cache):
             pass
     defs = definitions(syntax)
     for name in names:
-        a = _timed(lambda: expand(name, cfg({})), 'after the history %r: expand(%r)' % (history, name))
-        b = _timed(lambda: expand(defs[name], cfg({})), 'after the history %r: expand(%r)' % (history, defs[name]))
+        try:
+            a = _timed(lambda: expand(name, cfg({})), 'after the history %r: expand(%r)' % (history, name))
+            b = _timed(lambda: expand(defs[name], cfg({})), 'after the history %r: expand(%r)' % (history, defs[name]))
+        except _Slow:
+            raise
+        except Exception as e:
+            return 'syntax %s, after the calls %r%s: expanding the built-in alias %r / its definition %r raised %s: %s' % (
+                syntax, history, ' (one cache dict shared by all calls)' if share_cache else '', name, defs[name], type(e).__name__, e)
         if a != b:
             return 'syntax %s, after the calls %s%s: expand(%r) = %r but expand(definition %r) = %r' % (
                 syntax, '; '.join('expand(%r, %s)' % (x, json.dumps(e, sort_keys=True)) for x, e in history),
